@@ -1,5 +1,306 @@
-import Plonk.Model.Verifier
+/-
+  C03 — "Verifier decides exactly the protocol's equation and transcript."
+
+  What is proved here (all about the model's own functions `VerifierM.verify`, `verifyTerms`,
+  `verifyRefTerms`, `linearizationTerms`, `rangeScalar …`, `statementOps`, `verifierChallenges`):
+
+  * `accept_iff_equation` — `verify` returns `.ok` exactly when the public-input length matches,
+    the domain exists, `z` is off the domain / public-input roots, and the pairing equation of the
+    grouped MSM holds (decided with the trapdoor `x`, as in the model).
+  * `code_equation_is_textbook` — under every interpretation of the points in every `F`-module,
+    the grouped MSM of the code equals the textbook expression
+    `[D] + Σ vⁱCᵢ + u Σ v_wⁱC'ᵢ − E·g + z·W_z + u·z·ω·W_zω`, and the left input is `−(W_z + u·W_zω)`;
+    both for the current equation (11 openings at `z`) and the legacy one (7).  The two forms are
+    defined for the same inputs (`equation_defined_iff`).
+  * `textbook_equation_written_out(_legacy)`, `r0_is_textbook` — the textbook expression spelled out
+    with explicit powers of `v`, `v_w` (all 15 evaluations covered in V2/V3; in V1 the four selector
+    evaluations are not opened); `prover_verifier_transcripts_agree`.
+  * `linearisation_is_textbook`, `widget_terms_match`, `widget_terms_vanish`, `quotient_powers` —
+    `[D]` term by term: arithmetic, the four custom widgets (scalars = the row identities
+    `rangeComps / logicComps / fixedComps / varComps` of the row semantics with the separation
+    challenge weights), the permutation argument, the quotient.  (The prover model
+    `Plonk/Model/Prover.lean::quotientEvals` calls the very same `rangeScalar … varScalar` with the
+    same separation challenges, so the weighting agrees with the prover's by construction.)
+  * `transcript_function_of_ops`, `transcript_binds_statement`, `transcript_binds_proof`,
+    `v3_binds_s4`, `legacy_ignores_s4` — the challenges are a function of the operation list, and
+    the operation list is injective in label, circuit size, `vk.n`, every transcript-bound
+    verifier-key commitment, every public input (mod `r`) and every proof element.
+  * `nothing_else` — `verify` does not depend on `v.size`, `v.ok.h`, `v.ok.xh`.
+
+  Not proved / limits (stated, not hidden):
+  * The group law of the executable `G1` model is not used: the link between `G1.msum` (what
+    `accept_iff_equation` talks about) and `evalTerms ι` (what `code_equation_is_textbook` talks
+    about) is the statement "`G1.msum` is `Σ sᵢ•Pᵢ` in the curve group", which is outside this file.
+  * Injectivity is proved for the *operation list* (labels + message bytes).  That Merlin/STROBE
+    maps different operation lists to different challenges is a hash assumption, not a theorem.
+    The `u64` operations hold the number itself; `append_u64` absorbs it as 8 bytes, which is
+    injective below `2^64` (`Plonk.u64le_inj`).
+  * Point-level injectivity needs the points to be decodable (`G1.Decodable`: some 48-byte string
+    decodes to them); every decoded proof / key satisfies this (`decoded_inputs_are_valid`).
+    Scalars are bound modulo `r` (`scalarBytes` reduces), i.e. exactly for canonical scalars.
+-/
+import Plonk.Proofs.VerifierAlgebra
+import Plonk.Proofs.TranscriptInj
+
 namespace Plonk.Props.C03
 open Plonk
-theorem placeholder_consts : Generated.V_MAX_DEGREE = 11 ∧ Generated.V_MAX_DEGREE_LEGACY = 7 := by decide
+
+/-- **Acceptance = the equation.** -/
+theorem accept_iff_equation (v : VerifierM) (x : Nat) (p : ProofM) (pis : List Nat) (ver : PVersion) :
+    v.verify x p pis ver = .ok ↔
+      pis.length = v.piIndexes.length ∧ ∃ d, Domain.new? v.vk.n = some d ∧ ∃ right left,
+        verifyTerms v.vk v.ok.g d (v.piIndexes.map fun i => fpow d.groupGenInv (i % 2 ^ 64)) pis p
+          (verifierChallenges v.label v.vk v.constraints (ver == .v3) pis p) (ver == .v1) = some (right, left) ∧
+        G1.add (G1.smul x (G1.msum left)) (G1.msum right) = .inf :=
+  verify_ok_iff v x p pis ver
+
+-- the right-hand side is not always true: a wrong-length public-input vector is refused
+example : (default : VerifierM).verify 7 default [1] .v3 = .piLen :=
+  len_mismatch _ _ _ _ _ (by decide)
+
+/-- **The code's grouped MSM is the textbook equation** (both equations). -/
+theorem code_equation_is_textbook {G : Type*} [AddCommGroup G] [Module F G] (ι : G1 → G)
+    (vkey : VKey) (g : G1) (d : Domain) (roots pis : List Nat) (p : ProofM) (ch : Challenges)
+    (legacy : Bool) (right left ref : List (Nat × G1))
+    (hc : verifyTerms vkey g d roots pis p ch legacy = some (right, left))
+    (hr : verifyRefTerms vkey g d roots pis p ch legacy = some ref) :
+    evalTerms ι right = evalTerms ι ref ∧ evalTerms ι left = -(ι p.wz + toF ch.u • ι p.wzw) :=
+  verifyCode_eq_verifyRef ι vkey g d roots pis p ch legacy right left ref hc hr
+
+-- non-vacuity: a concrete domain record and challenge point for which both forms are defined,
+-- for both equations, with the interpretation `G := F`, `ι := fun _ => 1`
+example (vkey : VKey) (g : G1) (p : ProofM) (legacy : Bool) :
+    ∃ right left ref,
+      verifyTerms vkey g { size := 4, logSize := 2, sizeInv := 0, groupGen := 1, groupGenInv := 1, generatorInv := 0 }
+        [] [] p { (default : Challenges) with z := 5 } legacy = some (right, left) ∧
+      verifyRefTerms vkey g { size := 4, logSize := 2, sizeInv := 0, groupGen := 1, groupGenInv := 1, generatorInv := 0 }
+        [] [] p { (default : Challenges) with z := 5 } legacy = some ref :=
+  verifyTerms_some_of_lagrange _ _ _ _ _ _ _ _ (by decide +kernel)
+
+example : ∃ (G : Type) (_ : AddCommGroup G) (_ : Module F G) (ι : G1 → G), ι G1.gen ≠ 0 :=
+  ⟨F, inferInstance, inferInstance, fun _ => 1, one_ne_zero⟩
+
+/-- **The textbook equation written out**, current protocol (V2/V3): all fifteen evaluations carried
+    in the proof are covered by the two batched openings (eleven at `z`, four at `zω`). -/
+theorem textbook_equation_written_out {G : Type*} [AddCommGroup G] [Module F G] (ι : G1 → G)
+    (vkey : VKey) (g : G1) (d : Domain) (roots pis : List Nat)
+    (p : ProofM) (ch : Challenges) (l1 piEval : Nat) (ref : List (Nat × G1))
+    (hlp : d.lagrangeAndPi roots pis ch.z = some (l1, piEval))
+    (hr : verifyRefTerms vkey g d roots pis p ch false = some ref) :
+    evalTerms ι ref =
+      evalTerms ι (linearizationTerms vkey p ch (d.evaluateVanishing ch.z) l1) - toF ch.u • ι p.zC +
+      (toF ch.v • ι p.aC + toF ch.v ^ 2 • ι p.bC + toF ch.v ^ 3 • ι p.cC + toF ch.v ^ 4 • ι p.dC +
+       toF ch.v ^ 5 • ι vkey.s1 + toF ch.v ^ 6 • ι vkey.s2 + toF ch.v ^ 7 • ι vkey.s3 +
+       toF ch.v ^ 8 • ι vkey.qarith + toF ch.v ^ 9 • ι vkey.qc + toF ch.v ^ 10 • ι vkey.ql +
+       toF ch.v ^ 11 • ι vkey.qr) +
+      toF ch.u • (ι p.zC + toF ch.vw • ι p.aC + toF ch.vw ^ 2 • ι p.bC + toF ch.vw ^ 3 • ι p.dC) -
+      ((toF ch.v * toF p.ev.a + toF ch.v ^ 2 * toF p.ev.b + toF ch.v ^ 3 * toF p.ev.c +
+        toF ch.v ^ 4 * toF p.ev.d + toF ch.v ^ 5 * toF p.ev.s1 + toF ch.v ^ 6 * toF p.ev.s2 +
+        toF ch.v ^ 7 * toF p.ev.s3 + toF ch.v ^ 8 * toF p.ev.qarith + toF ch.v ^ 9 * toF p.ev.qc +
+        toF ch.v ^ 10 * toF p.ev.ql + toF ch.v ^ 11 * toF p.ev.qr) +
+       toF ch.u * (toF p.ev.z + toF ch.vw * toF p.ev.aw + toF ch.vw ^ 2 * toF p.ev.bw +
+        toF ch.vw ^ 3 * toF p.ev.dw) - toF (r0Eval p.ev ch l1 piEval)) • ι g +
+      toF ch.z • ι p.wz + (toF ch.u * toF ch.z * toF d.groupGen) • ι p.wzw :=
+  verifyRef_explicit_current ι vkey g d roots pis p ch l1 piEval ref hlp hr
+
+/-- the same for the legacy V1 equation: only seven commitments are opened at `z`; the evaluations
+    `q_arith, q_c, q_l, q_r` carried in the proof (and used in `[D]`) are **not** covered — the
+    documented V1 behaviour, visible here as the missing `v⁸ … v¹¹` terms. -/
+theorem textbook_equation_written_out_legacy {G : Type*} [AddCommGroup G] [Module F G] (ι : G1 → G)
+    (vkey : VKey) (g : G1) (d : Domain) (roots pis : List Nat)
+    (p : ProofM) (ch : Challenges) (l1 piEval : Nat) (ref : List (Nat × G1))
+    (hlp : d.lagrangeAndPi roots pis ch.z = some (l1, piEval))
+    (hr : verifyRefTerms vkey g d roots pis p ch true = some ref) :
+    evalTerms ι ref =
+      evalTerms ι (linearizationTerms vkey p ch (d.evaluateVanishing ch.z) l1) - toF ch.u • ι p.zC +
+      (toF ch.v • ι p.aC + toF ch.v ^ 2 • ι p.bC + toF ch.v ^ 3 • ι p.cC + toF ch.v ^ 4 • ι p.dC +
+       toF ch.v ^ 5 • ι vkey.s1 + toF ch.v ^ 6 • ι vkey.s2 + toF ch.v ^ 7 • ι vkey.s3) +
+      toF ch.u • (ι p.zC + toF ch.vw • ι p.aC + toF ch.vw ^ 2 • ι p.bC + toF ch.vw ^ 3 • ι p.dC) -
+      ((toF ch.v * toF p.ev.a + toF ch.v ^ 2 * toF p.ev.b + toF ch.v ^ 3 * toF p.ev.c +
+        toF ch.v ^ 4 * toF p.ev.d + toF ch.v ^ 5 * toF p.ev.s1 + toF ch.v ^ 6 * toF p.ev.s2 +
+        toF ch.v ^ 7 * toF p.ev.s3) +
+       toF ch.u * (toF p.ev.z + toF ch.vw * toF p.ev.aw + toF ch.vw ^ 2 * toF p.ev.bw +
+        toF ch.vw ^ 3 * toF p.ev.dw) - toF (r0Eval p.ev ch l1 piEval)) • ι g +
+      toF ch.z • ι p.wz + (toF ch.u * toF ch.z * toF d.groupGen) • ι p.wzw :=
+  verifyRef_explicit_legacy ι vkey g d roots pis p ch l1 piEval ref hlp hr
+
+-- non-vacuity of `hlp`: the concrete domain record used above
+example : ∃ l1 piEval, Domain.lagrangeAndPi
+    { size := 4, logSize := 2, sizeInv := 0, groupGen := 1, groupGenInv := 1, generatorInv := 0 } [] []
+    ({ (default : Challenges) with z := 5 } : Challenges).z = some (l1, piEval) := by
+  have h : (Domain.lagrangeAndPi
+    { size := 4, logSize := 2, sizeInv := 0, groupGen := 1, groupGenInv := 1, generatorInv := 0 } [] [] 5).isSome = true := by
+    decide +kernel
+  obtain ⟨lp, hlp⟩ := Option.isSome_iff_exists.mp h
+  exact ⟨lp.1, lp.2, hlp⟩
+
+/-- `r₀`, the constant term moved to the right-hand side -/
+theorem r0_is_textbook (e : Evals) (ch : Challenges) (l1 pi : Nat) :
+    toF (r0Eval e ch l1 pi) = toF pi - toF l1 * toF ch.alpha ^ 2 -
+      toF ch.alpha * (toF e.a + toF ch.beta * toF e.s1 + toF ch.gamma) *
+        (toF e.b + toF ch.beta * toF e.s2 + toF ch.gamma) *
+        (toF e.c + toF ch.beta * toF e.s3 + toF ch.gamma) * (toF e.d + toF ch.gamma) * toF e.z :=
+  toF_r0Eval e ch l1 pi
+
+/-- prover and verifier run the same transcript: the prover's item list is `"pi"` followed by the
+    first 35 items of the verifier's (which then continues with the two opening commitments and `u`) -/
+theorem prover_verifier_transcripts_agree :
+    Generated.PROVER_TRANSCRIPT = "s:pi" :: Generated.VERIFIER_TRANSCRIPT.take 35 := by decide
+
+/-- the two forms are defined for exactly the same inputs -/
+theorem equation_defined_iff (vkey : VKey) (g : G1) (d : Domain) (roots pis : List Nat) (p : ProofM)
+    (ch : Challenges) (legacy : Bool) :
+    (verifyTerms vkey g d roots pis p ch legacy = none ↔ d.lagrangeAndPi roots pis ch.z = none) ∧
+    (verifyRefTerms vkey g d roots pis p ch legacy = none ↔ d.lagrangeAndPi roots pis ch.z = none) :=
+  verifyTerms_none_iff vkey g d roots pis p ch legacy
+
+/-- **`[D]` term by term**: arithmetic, the four custom widgets, permutation, quotient. -/
+theorem linearisation_is_textbook {G : Type*} [AddCommGroup G] [Module F G] (ι : G1 → G) (k : VKey)
+    (p : ProofM) (ch : Challenges) (zh l1 : Nat) :
+    evalTerms ι (linearizationTerms k p ch zh l1) =
+      toF p.ev.qarith • ((toF p.ev.a * toF p.ev.b) • ι k.qm + toF p.ev.a • ι k.ql + toF p.ev.b • ι k.qr +
+        toF p.ev.c • ι k.qo + toF p.ev.d • ι k.qf + ι k.qc) +
+      toF (rangeScalar ch.rangeSep p.ev) • ι k.qrange + toF (logicScalar ch.logicSep p.ev) • ι k.qlogic +
+      toF (fixedScalar ch.fixedSep p.ev) • ι k.qfixed + toF (varScalar ch.varSep p.ev) • ι k.qvar +
+      ((toF p.ev.a + toF ch.beta * toF ch.z + toF ch.gamma) *
+        (toF p.ev.b + toF ch.beta * toF Generated.K1 * toF ch.z + toF ch.gamma) *
+        (toF p.ev.c + toF ch.beta * toF Generated.K2 * toF ch.z + toF ch.gamma) *
+        (toF p.ev.d + toF ch.beta * toF Generated.K3 * toF ch.z + toF ch.gamma) * toF ch.alpha +
+        toF l1 * toF ch.alpha ^ 2 + toF ch.u) • ι p.zC -
+      ((toF p.ev.a + toF ch.beta * toF p.ev.s1 + toF ch.gamma) *
+        (toF p.ev.b + toF ch.beta * toF p.ev.s2 + toF ch.gamma) *
+        (toF p.ev.c + toF ch.beta * toF p.ev.s3 + toF ch.gamma) * toF ch.beta * toF p.ev.z * toF ch.alpha) • ι k.s4 -
+      toF zh • (ι p.tLow + (toF zh + 1) • ι p.tMid + (toF zh + 1) ^ 2 • ι p.tHigh +
+        (toF zh + 1) ^ 3 • ι p.tFourth) :=
+  linearization_eval ι k p ch zh l1
+
+/-- `zh + 1 = zⁿ`: the quotient scalars are `−zh, −zh·zⁿ, −zh·z²ⁿ, −zh·z³ⁿ` -/
+theorem quotient_powers (n : Nat) (d : Domain) (hd : Domain.new? n = some d) (z : Nat) :
+    toF (d.evaluateVanishing z) + 1 = toF z ^ d.size := by
+  rw [toF_evaluateVanishing (Domain.new?_WF n d hd)]; ring
+
+example : ∃ d, Domain.new? 4 = some d := by
+  have : (Domain.new? 4).isSome = true := by decide +kernel
+  exact Option.isSome_iff_exists.mp this
+
+/-- **Each custom-gate scalar is the widget's row identity** with the separation-challenge
+    weighting (`sep·(c₀ + sep²c₁ + sep⁴c₂ + …)`), the components being the model's row semantics. -/
+theorem widget_terms_match (sep : Nat) (e : Evals) :
+    toF (rangeScalar sep e) = toF sep *
+      (deltaF (toF e.c - 4 * toF e.d) + toF sep ^ 2 * deltaF (toF e.b - 4 * toF e.c) +
+       toF sep ^ 4 * deltaF (toF e.a - 4 * toF e.b) + toF sep ^ 6 * deltaF (toF e.dw - 4 * toF e.a)) ∧
+    toF (logicScalar sep e) = toF sep *
+      (deltaF (toF e.aw - 4 * toF e.a) + toF sep ^ 2 * deltaF (toF e.bw - 4 * toF e.b) +
+       toF sep ^ 4 * deltaF (toF e.dw - 4 * toF e.d) +
+       toF sep ^ 6 * (toF e.c - (toF e.aw - 4 * toF e.a) * (toF e.bw - 4 * toF e.b)) +
+       toF sep ^ 8 * deltaXorAndF (toF e.aw - 4 * toF e.a) (toF e.bw - 4 * toF e.b) (toF e.c)
+         (toF e.dw - 4 * toF e.d) (toF e.qc)) ∧
+    toF (fixedScalar sep e) =
+      (let bit := toF e.dw - 2 * toF e.d
+       let k := toF e.c * toF e.a * toF e.b * dF
+       let yα := bit ^ 2 * (toF e.qr - 1) + 1
+       let xα := bit * toF e.ql
+       toF sep *
+        (bit * (bit - 1) * (bit + 1) + toF sep ^ 2 * (bit * toF e.qc - toF e.c) +
+         toF sep ^ 4 * (toF e.aw + toF e.aw * k - (toF e.a * yα + toF e.b * xα)) +
+         toF sep ^ 6 * (toF e.bw - toF e.bw * k - (toF e.b * yα + toF e.a * xα)))) ∧
+    toF (varScalar sep e) =
+      (let k := dF * toF e.dw * (toF e.b * toF e.c)
+       toF sep *
+        (toF e.a * toF e.d - toF e.dw +
+         toF sep ^ 2 * (toF e.dw + toF e.b * toF e.c - (toF e.aw + toF e.aw * k)) +
+         toF sep ^ 4 * (toF e.b * toF e.d + toF e.a * toF e.c - (toF e.bw - toF e.bw * k)))) :=
+  ⟨toF_rangeScalar sep e, toF_logicScalar sep e, toF_fixedScalar sep e, toF_varScalar sep e⟩
+
+/-- **Vanishing**: evaluations that satisfy a widget's row identity (the model's row semantics,
+    literally the functions `rowHolds` uses) make that widget's scalar `0`. -/
+theorem widget_terms_vanish (sep : Nat) (e : Evals) :
+    (allZero (rangeComps e.a e.b e.c e.d e.dw) = true → rangeScalar sep e = 0) ∧
+    (allZero (logicComps e.qc e.a e.aw e.b e.bw e.c e.d e.dw) = true → logicScalar sep e = 0) ∧
+    (allZero (fixedComps e.ql e.qr e.qc e.a e.aw e.b e.bw e.c e.d e.dw) = true → fixedScalar sep e = 0) ∧
+    (allZero (varComps e.a e.aw e.b e.bw e.c e.d e.dw) = true → varScalar sep e = 0) :=
+  widget_scalars_vanish sep e
+
+-- non-vacuity: a non-trivial range row (quads 0, 1, 1, 3: d=0, c=0, b=1, a=5, d_next=23)
+example : allZero (rangeComps 5 1 0 0 23) = true := by decide +kernel
+example : rangeScalar 12345 { (default : Evals) with a := 5, b := 1, c := 0, d := 0, dw := 23 } = 0 :=
+  (widget_terms_vanish 12345 _).1 (by decide +kernel)
+
+/-- the challenges are, by definition, a function of the operation list … -/
+theorem transcript_function_of_ops (label : List Nat) (k : VKey) (c : Nat) (v3 : Bool) (pis : List Nat)
+    (p : ProofM) :
+    verifierChallenges label k c v3 pis p =
+      challengesOf (runOps (statementOps label k c v3 pis p) merlinInit).2 :=
+  Plonk.transcript_function_of_ops label k c v3 pis p
+
+/-- … **and the operation list binds the whole statement**: label, circuit size, `vk.n`, every
+    transcript-bound verifier-key commitment (`VKey.boundComms`: all fifteen in V3; all but
+    `s_sigma_4` in V1/V2), every public input (value, order, length; modulo `r`), all eleven proof
+    commitments and all fifteen evaluations (modulo `r`). -/
+theorem transcript_binds_statement {label label' : List Nat} {k k' : VKey} {c c' : Nat} {v3 : Bool}
+    {pis pis' : List Nat} {p p' : ProofM}
+    (hk : k.Decodable) (hk' : k'.Decodable) (hp : p.Decodable) (hp' : p'.Decodable)
+    (h : statementOps label k c v3 pis p = statementOps label' k' c' v3 pis' p') :
+    label = label' ∧ c = c' ∧ k.n = k'.n ∧ k.boundComms v3 = k'.boundComms v3 ∧
+      pis.map (· % R) = pis'.map (· % R) ∧ p.comms = p'.comms ∧
+      p.ev.toList.map (· % R) = p'.ev.toList.map (· % R) :=
+  statementOps_injective hk hk' hp hp' h
+
+/-- with canonical evaluations the whole proof is bound -/
+theorem transcript_binds_proof {label label' : List Nat} {k k' : VKey} {c c' : Nat} {v3 : Bool}
+    {pis pis' : List Nat} {p p' : ProofM}
+    (hp : p.Decodable) (hp' : p'.Decodable) (he : p.ev.Reduced) (he' : p'.ev.Reduced)
+    (h : statementOps label k c v3 pis p = statementOps label' k' c' v3 pis' p') : p = p' :=
+  statementOps_injective_proof hp hp' he he' h
+
+/-- the hypotheses above hold for everything that comes out of the byte decoders -/
+theorem decoded_inputs_are_valid {bs bs' : List Nat} {p : ProofM} {k : VKey}
+    (hp : ProofM.fromBytes? bs = some p) (hk : VKey.fromBytes? bs' = some k) :
+    p.Decodable ∧ p.ev.Reduced ∧ k.Decodable :=
+  ⟨(ProofM.fromBytes_valid hp).1, (ProofM.fromBytes_valid hp).2, VKey.fromBytes_valid hk⟩
+
+-- non-vacuity: a key and a proof with a non-trivial decodable point
+example : ({ (default : VKey) with qm := G1.gen } : VKey).Decodable := by
+  intro q hq
+  simp only [VKey.boundComms, if_true, List.cons_append, List.nil_append, List.mem_cons,
+    List.mem_nil_iff, or_false] at hq
+  rcases hq with h | h | h | h | h | h | h | h | h | h | h | h | h | h | h <;> rw [h] <;>
+    first | exact G1.decodable_gen | exact G1.decodable_inf
+example : ({ (default : ProofM) with aC := G1.gen } : ProofM).Decodable ∧ (default : ProofM).ev.Reduced := by
+  constructor
+  · intro q hq
+    simp only [ProofM.comms, List.mem_cons, List.mem_nil_iff, or_false] at hq
+    rcases hq with h | h | h | h | h | h | h | h | h | h | h <;> rw [h] <;>
+      first | exact G1.decodable_gen | exact G1.decodable_inf
+  · intro x hx
+    simp only [Evals.toList, List.mem_cons, List.mem_nil_iff, or_false] at hx
+    rcases hx with h | h | h | h | h | h | h | h | h | h | h | h | h | h | h <;> rw [h] <;> exact R_pos
+
+/-- V3 binds `s_sigma_4` … -/
+theorem v3_binds_s4 (label : List Nat) (k : VKey) (c : Nat) (pis : List Nat) (p : ProofM) (s4' : G1)
+    (hd : G1.Decodable k.s4) (hd' : G1.Decodable s4') (hne : s4' ≠ k.s4) :
+    statementOps label { k with s4 := s4' } c true pis p ≠ statementOps label k c true pis p :=
+  Plonk.v3_binds_s4 label k c pis p s4' hd hd' hne
+
+example : G1.Decodable (default : VKey).s4 ∧ G1.Decodable G1.gen ∧ G1.gen ≠ (default : VKey).s4 :=
+  ⟨G1.decodable_inf, G1.decodable_gen, by decide⟩
+
+/-- … while the V1/V2 transcript does not (documented legacy behaviour) -/
+theorem legacy_ignores_s4 (label : List Nat) (k : VKey) (c : Nat) (pis : List Nat) (p : ProofM) (s4' : G1) :
+    statementOps label { k with s4 := s4' } c false pis p = statementOps label k c false pis p :=
+  Plonk.legacy_ignores_s4 label k c pis p s4'
+
+/-- **Nothing else influences acceptance**: two verifiers that agree on `label`, `constraints`,
+    `vk`, `ok.g` and `piIndexes` decide identically (whatever `size`, `ok.h`, `ok.xh` are). -/
+theorem nothing_else (v v' : VerifierM) (x : Nat) (p : ProofM) (pis : List Nat) (ver : PVersion)
+    (hl : v.label = v'.label) (hc : v.constraints = v'.constraints) (hk : v.vk = v'.vk)
+    (hg : v.ok.g = v'.ok.g) (hi : v.piIndexes = v'.piIndexes) :
+    v.verify x p pis ver = v'.verify x p pis ver :=
+  verify_congr v v' x p pis ver hl hc hk hg hi
+
+example (v : VerifierM) (x : Nat) (p : ProofM) (pis : List Nat) (ver : PVersion) (s : Nat) (h h' : G2) :
+    ({ v with size := s, ok := { v.ok with h := h, xh := h' } } : VerifierM).verify x p pis ver =
+      v.verify x p pis ver :=
+  nothing_else _ _ x p pis ver rfl rfl rfl rfl rfl
+
 end Plonk.Props.C03
